@@ -349,6 +349,9 @@ def _clean_using_glob(
                 matches.remove(symlink_dir)
     # Now clean the rest
     for path in matches:
+        if not os.path.lexists(path):
+            # Already removed along with a matched ancestor directory
+            continue
         remove_dir_or_file(path)
 
 
